@@ -117,7 +117,10 @@ func JsonListReader(list []interface{}) node.Node {
 			if r.First {
 				keyFields := r.Meta.KeyMeta()
 				for i := 0; i < len(list); i++ {
-					candidate := list[i].(map[string]interface{})
+					candidate, isObject := list[i].(map[string]interface{})
+					if !isObject {
+						return nil, nil, fmt.Errorf("%w. expected an object as entry of list %s", fc.BadRequestError, r.Meta.Ident())
+					}
 					if jsonKeyMatches(keyFields, candidate, key) {
 						return JsonContainerReader(candidate), r.Key, nil
 					}
@@ -125,7 +128,10 @@ func JsonListReader(list []interface{}) node.Node {
 			}
 		} else {
 			if r.Row < len(list) {
-				container := list[r.Row].(map[string]interface{})
+				container, isObject := list[r.Row].(map[string]interface{})
+				if !isObject {
+					return nil, nil, fmt.Errorf("%w. expected an object as entry of list %s", fc.BadRequestError, r.Meta.Ident())
+				}
 				if len(r.Meta.KeyMeta()) > 0 {
 					keyData := make([]interface{}, len(r.Meta.KeyMeta()))
 					for i, kmeta := range r.Meta.KeyMeta() {
